@@ -160,3 +160,11 @@ package lib
 //@ func PublicKeyFromBytes
 //@   pure
 //@   ensures[same] isnil(result1) ==> !isnil(result0) && keyBytes(result0) == bytes(pubKey)
+
+// ---- C01: the certificate that justifies an unlock -----------------------------------------------------------
+// a HighQC is accepted only if it verifies for the committee AND carries +2/3 of its power, is for the same
+// target height, is a PROPOSE_VOTE certificate, and is not from before the committee's last root-height update
+//@ func (*QuorumCertificate).CheckHighQC
+//@   ensures[verified] result == nil ==> aggVerifies(committeeOf(vs.MultiKey), bytes(x.Signature.Bitmap), signBytesOf(x), bytes(x.Signature.Signature))
+//@   ensures[maj23] result == nil ==> signedPowerW(vs.ValidatorSet.ValidatorSet, bytes(x.Signature.Bitmap), false, len(vs.ValidatorSet.ValidatorSet)) >= vs.MinimumMaj23
+//@   ensures[view] result == nil ==> x.Header.Height == view.Height && x.Header.Phase == Phase_PROPOSE_VOTE && x.Header.RootHeight >= lastRootHeightUpdated && x.Header.NetworkId == view.NetworkId && x.Header.ChainId == view.ChainId
